@@ -415,6 +415,9 @@ class SStr(Sym):
 
     # --- non-forking predicates -------------------------------------------
     def contains(self, sub: Any) -> Any:
+        r = self._hook('contains', sub)
+        if r is not NotImplemented:
+            return r
         return mk_bool(z3.Contains(self.t, _s(sub)))
 
     def __contains__(self, sub: Any) -> bool:
@@ -1030,11 +1033,19 @@ class Explorer:
         self.pending.append(prefix)
 
     def explore(self, harness: Callable[[Ctx], None]) -> None:
+        import os
+
         self.pending.append([])
+        t_start = time.time()
+        budget_s = float(os.environ.get('PYVC_HARNESS_BUDGET_S', '900'))
         while self.pending:
             prefix = self.pending.pop()
             if self.paths >= self.max_paths:
                 raise EngineError('path budget exhausted (%d)' % self.max_paths)
+            if time.time() - t_start > budget_s:
+                # never hang: an exploding path space (e.g. an unmodelled construct that forks per element) is a checker
+                # problem (exit 3), not a verdict
+                raise EngineError('time budget of %.0f s exhausted after %d paths' % (budget_s, self.paths))
             ctx = Ctx(self, prefix)
             _CUR.append(ctx)
             try:
